@@ -10,6 +10,7 @@
 #include "cpu.h"
 #include "epoch.h"
 #include "garbage_collection.h"
+#include "verif_hook.h"
 
 namespace yakushima {
 
@@ -21,32 +22,40 @@ public:
      * @return false fail.
      */
     bool gain_the_right() {
+        YAKUSHIMA_VERIF_YIELD(Y_LOAD | Y_CAT_SESSION, &running_);
         bool expected(running_.load(std::memory_order_acquire));
         for (;;) {
             if (expected) { return false; }
+            YAKUSHIMA_VERIF_YIELD(Y_CAS | Y_CAT_SESSION, &running_);
             if (running_.compare_exchange_weak(expected, true,
                                                std::memory_order_acq_rel,
                                                std::memory_order_acquire)) {
+                YAKUSHIMA_VERIF_EVENT(EV_SLOT_CLAIM, this, 0, 0);
                 return true;
             }
         }
     }
 
     [[nodiscard]] Epoch get_begin_epoch() const {
+        YAKUSHIMA_VERIF_YIELD(Y_LOAD | Y_CAT_SESSION, &begin_epoch_);
         return begin_epoch_.load(std::memory_order_acquire);
     }
 
     [[nodiscard]] garbage_collection& get_gc_info() { return gc_info_; }
 
     [[nodiscard]] bool get_running() const {
+        YAKUSHIMA_VERIF_YIELD(Y_LOAD | Y_CAT_SESSION, &running_);
         return running_.load(std::memory_order_acquire);
     }
 
     void set_begin_epoch(const Epoch epoch) {
+        YAKUSHIMA_VERIF_YIELD(Y_STORE | Y_CAT_SESSION, &begin_epoch_);
         begin_epoch_.store(epoch, std::memory_order_relaxed);
     }
 
     void set_running(const bool tf) {
+        YAKUSHIMA_VERIF_YIELD(Y_STORE | Y_CAT_SESSION, &running_);
+        if (!tf) { YAKUSHIMA_VERIF_EVENT(EV_SLOT_RELEASE, this, 0, 0); }
         running_.store(tf, std::memory_order_relaxed);
     }
 
